@@ -173,6 +173,11 @@ type ResourceBank struct {
 }
 
 func newResourceBank() *ResourceBank {
+	if verifOn {
+		if rb := simBankGet(); rb != nil {
+			return rb
+		}
+	}
 	return resourceBankPool.Get().(*ResourceBank)
 }
 
@@ -234,6 +239,9 @@ func (rb *ResourceBank) Close() {
 	// We also need to clear the string data
 	rb.sData = rb.sData[:0]
 
+	if verifOn && simBankPut(rb) {
+		return
+	}
 	resourceBankPool.Put(rb)
 }
 
